@@ -517,6 +517,14 @@ def comp_filter_count():
     raise NotImplementedError("comp_filter_count() is a symbolic-only builtin")
 
 
+def returned(name):
+    raise NotImplementedError("returned() is a symbolic-only builtin")
+
+
+def yielded():
+    raise NotImplementedError("yielded() is a symbolic-only builtin")
+
+
 def call_recv(name):
     raise NotImplementedError("call_recv() is a symbolic-only builtin")
 
@@ -528,3 +536,24 @@ def call_result(name, nth=None):
 
 def called_before(a, b):
     raise NotImplementedError("called_before() is a symbolic-only builtin")
+
+
+# ---------------------------------------------------------------------------------------------
+# WSDL 1.1 section 2.3.1: a message part refers to an element or a type by a QName (prefix:local)
+# ---------------------------------------------------------------------------------------------
+def ref_prefix(v):
+    """Prefix of a lexical QName reference, None when there is none."""
+    i = v.find(":")
+    if i >= 0 and i + 1 < len(v):
+        return v[:i]
+    return None
+
+
+def ref_local(v):
+    """Local part of a lexical QName reference."""
+    i = v.find(":")
+    if i >= 0 and i + 1 < len(v):
+        return v[i + 1:]
+    if i >= 0:
+        return v[:i]
+    return v
